@@ -10,17 +10,17 @@ Model: Model/C37.lean.  Tie: differential of the real codec functions and of the
 path (Spawn → toSerialize → protobuf → wireSpawnOptions → Spawn) against the model
 (tools/props/c37.py, harness/verifdrv/c37, harness/inpkg/actor/zz_verif_c37.go).
 
-Result.
-* `relocate_exact` says EXACTLY what the re-created actor holds, for every configuration:
-  everything is preserved except (1) the supervisor's backoff triple, which becomes 0/0/0 —
-  `SupervisorSpec` has no field for it; (2) the directive table is re-normalised by the decoder
-  (`normGet`): an AnyError entry wipes the others, otherwise the two constructor defaults come back;
-  (3) the reentrancy limit is clamped to 2^32-1 (`uint32 max_in_flight`).
-* `C37_refuted`: the property is false (witness: `WithExponentialBackoff(1µs, 2µs, 3µs)`),
-  `C37_backoff_always_lost`: for every configuration with a backoff.
-* `C37_partial`: the property for every configuration under the decidable guard "no backoff,
-  constructor-shaped directive table, limit ≤ 2^32-1"; `C37_constructor_covered`: the first two
-  hold for every supervisor built by `NewSupervisor` from any options except WithExponentialBackoff.
+Result (code as of fix 1ad4e99, which added the backoff fields to SupervisorSpec).
+* `relocate_exact` / `remoteSpawn_exact` say EXACTLY what the re-created actor holds, for every
+  configuration: everything is preserved — including, now, the backoff triple (`C37_backoff_survives`) —
+  except (1) the directive table is re-normalised by the decoder (`normGet`): an AnyError entry wipes the
+  others, otherwise the two constructor defaults come back; (2) the reentrancy limit is clamped to 2^32-1
+  (`uint32 max_in_flight`).
+* `C37_refuted`: the property read over ALL configurations is still false — witness: a supervisor emptied
+  with the public `Reset()` comes back with the two default directives (finding C37-F2).
+* `C37_partial`: the property on both routes for every configuration under the decidable guard
+  "constructor-shaped directive table, limit ≤ 2^32-1"; `C37_constructor_covered`: every supervisor built by
+  `NewSupervisor` from ANY options (backoff included) satisfies the supervisor part of the guard and of `Inv`.
 -/
 import GoaktVerif.Model.C37
 import GoaktVerif.Spec.C37
@@ -54,9 +54,28 @@ theorem fold_opts_rules (s : Sup) (opts : List SupOpt) (h : ∀ o ∈ opts, ∃ 
     simp only [List.foldl_cons]
     obtain ⟨st, n, t, ho | ho⟩ := ho <;> (subst ho; simp only [applyOpt] at ih' ⊢; exact ih')
 
-/-- the options DecodeSupervisor always passes: strategy and (because Encode always sets the
-    timeout) retry -/
-def headOpts (s : Sup) : List SupOpt := [.strategy s.strategy, .retry s.maxRetries (durAs (durNew s.timeout))]
+/-- WithExponentialBackoff's normalisation of its three arguments -/
+def normTriple (i m r : Int) : Int × Int × Int :=
+  if i ≤ 0 then (0, 0, 0) else
+  let m := if m < i then i else m
+  let r := if r ≤ 0 then m else r
+  (i, m, r)
+
+/-- the backoff triple the decoder ends up with -/
+def decTriple (s : Sup) : Int × Int × Int :=
+  if 0 < s.initialDelay then
+    normTriple (durAs (durNew s.initialDelay)) (durAs (durNew s.maxDelay)) (durAs (durNew s.resetAfter))
+  else (0, 0, 0)
+
+def backoffOpts (s : Sup) : List SupOpt :=
+  if 0 < s.initialDelay then
+    [.backoff (durAs (durNew s.initialDelay)) (durAs (durNew s.maxDelay)) (durAs (durNew s.resetAfter))]
+  else []
+
+/-- the options DecodeSupervisor passes: strategy, retry (Encode always sets the timeout) and, since
+    1ad4e99, the backoff when one travelled -/
+def headOpts (s : Sup) : List SupOpt :=
+  [.strategy s.strategy, .retry s.maxRetries (durAs (durNew s.timeout))] ++ backoffOpts s
 
 theorem decodeSup_encodeSup (s : Sup) :
     decodeSup (encodeSup s) =
@@ -65,16 +84,20 @@ theorem decodeSup_encodeSup (s : Sup) :
       | none => setAll (newSupervisor (headOpts s)) (sortByKey (s.rules.filter (fun e => decide (e.1 ≠ "")))) := by
   unfold encodeSup
   cases h : rget s.rules anyKey with
-  | some d => simp [decodeSup, headOpts]
-  | none => simp [decodeSup, headOpts, setAll]
+  | some d => by_cases hb : 0 < s.initialDelay <;> simp [decodeSup, headOpts, backoffOpts, hb]
+  | none => by_cases hb : 0 < s.initialDelay <;> simp [decodeSup, headOpts, backoffOpts, setAll, hb]
 
 theorem headOpts_fold (s : Sup) :
     (headOpts s).foldl applyOpt base =
-      { base with strategy := s.strategy, maxRetries := s.maxRetries, timeout := durAs (durNew s.timeout) } := by
-  simp [headOpts, applyOpt]
+      ⟨s.strategy, s.maxRetries, durAs (durNew s.timeout), (decTriple s).1, (decTriple s).2.1, (decTriple s).2.2, base.rules⟩ := by
+  by_cases hb : 0 < s.initialDelay
+  · simp only [headOpts, backoffOpts, hb, if_true, List.cons_append, List.nil_append, List.foldl_cons, List.foldl_nil, applyOpt,
+      decTriple, normTriple]
+    split <;> rfl
+  · simp [headOpts, backoffOpts, hb, applyOpt, decTriple, base]
 
 theorem newSup_headOpts (s : Sup) : newSupervisor (headOpts s) =
-    { base with strategy := s.strategy, maxRetries := s.maxRetries, timeout := durAs (durNew s.timeout) } := by
+    ⟨s.strategy, s.maxRetries, durAs (durNew s.timeout), (decTriple s).1, (decTriple s).2.1, (decTriple s).2.2, base.rules⟩ := by
   simp only [newSupervisor, headOpts_fold, collapse, base_rules_any]
 
 /-- lookup in the decoded table, for every key -/
@@ -112,8 +135,8 @@ theorem rget_decode_encode (s : Sup) (hn : nodupKeys s.rules) (k : Key) :
 
 theorem decode_fields (s : Sup) :
     (decodeSup (encodeSup s)).strategy = s.strategy ∧ (decodeSup (encodeSup s)).maxRetries = s.maxRetries ∧
-    (decodeSup (encodeSup s)).timeout = durAs (durNew s.timeout) ∧ (decodeSup (encodeSup s)).initialDelay = 0 ∧
-    (decodeSup (encodeSup s)).maxDelay = 0 ∧ (decodeSup (encodeSup s)).resetAfter = 0 := by
+    (decodeSup (encodeSup s)).timeout = durAs (durNew s.timeout) ∧ (decodeSup (encodeSup s)).initialDelay = (decTriple s).1 ∧
+    (decodeSup (encodeSup s)).maxDelay = (decTriple s).2.1 ∧ (decodeSup (encodeSup s)).resetAfter = (decTriple s).2.2 := by
   rw [decodeSup_encodeSup]
   cases h : rget s.rules anyKey with
   | some d =>
@@ -123,16 +146,36 @@ theorem decode_fields (s : Sup) :
   | none =>
     have hf := setAll_fields (newSupervisor (headOpts s)) (sortByKey (s.rules.filter (fun e => decide (e.1 ≠ ""))))
     have hc := newSup_headOpts s
-    exact ⟨hf.1.trans (by rw [hc]), hf.2.1.trans (by rw [hc]), hf.2.2.1.trans (by rw [hc]), hf.2.2.2.1.trans (by rw [hc]; rfl),
-      hf.2.2.2.2.1.trans (by rw [hc]; rfl), hf.2.2.2.2.2.trans (by rw [hc]; rfl)⟩
+    exact ⟨hf.1.trans (by rw [hc]), hf.2.1.trans (by rw [hc]), hf.2.2.1.trans (by rw [hc]), hf.2.2.2.1.trans (by rw [hc]),
+      hf.2.2.2.2.1.trans (by rw [hc]), hf.2.2.2.2.2.trans (by rw [hc])⟩
 
-/-- **the supervisor after the wire, exactly** -/
-theorem sup_roundtrip_exact (s : Sup) (hn : nodupKeys s.rules) (ht : inI64 s.timeout = true) :
+/-- what every supervisor built through the public API satisfies: no backoff (0/0/0) or the
+    triple WithExponentialBackoff normalised (0 < initial ≤ max, 0 < reset); int64 values -/
+def tripleOK (s : Sup) : Prop :=
+  ((s.initialDelay = 0 ∧ s.maxDelay = 0 ∧ s.resetAfter = 0) ∨
+   (0 < s.initialDelay ∧ s.initialDelay ≤ s.maxDelay ∧ 0 < s.resetAfter)) ∧
+  inI64 s.initialDelay = true ∧ inI64 s.maxDelay = true ∧ inI64 s.resetAfter = true
+
+theorem decTriple_of_ok (s : Sup) (h : tripleOK s) : decTriple s = (s.initialDelay, s.maxDelay, s.resetAfter) := by
+  obtain ⟨hshape, h1, h2, h3⟩ := h
+  unfold decTriple
+  rcases hshape with ⟨a, b, c⟩ | ⟨a, b, c⟩
+  · rw [if_neg (by omega), a, b, c]
+  · rw [if_pos a, dur_roundtrip _ h1, dur_roundtrip _ h2, dur_roundtrip _ h3]
+    simp only [normTriple]
+    rw [if_neg (by omega), if_neg (by omega), if_neg (by omega)]
+
+/-- **the supervisor after the wire, exactly**: everything is kept, the directive table is
+    re-normalised -/
+theorem sup_roundtrip_exact (s : Sup) (hn : nodupKeys s.rules) (ht : inI64 s.timeout = true) (hb : tripleOK s) :
     let s' := decodeSup (encodeSup s)
     s'.strategy = s.strategy ∧ s'.maxRetries = s.maxRetries ∧ s'.timeout = s.timeout ∧
-    s'.initialDelay = 0 ∧ s'.maxDelay = 0 ∧ s'.resetAfter = 0 ∧ ∀ k, rget s'.rules k = normGet s.rules k := by
+    s'.initialDelay = s.initialDelay ∧ s'.maxDelay = s.maxDelay ∧ s'.resetAfter = s.resetAfter ∧
+    ∀ k, rget s'.rules k = normGet s.rules k := by
   obtain ⟨h1, h2, h3, h4, h5, h6⟩ := decode_fields s
-  exact ⟨h1, h2, h3.trans (dur_roundtrip _ ht), h4, h5, h6, fun k => rget_decode_encode s hn k⟩
+  have ht3 := decTriple_of_ok s hb
+  exact ⟨h1, h2, h3.trans (dur_roundtrip _ ht), by rw [h4, ht3], by rw [h5, ht3], by rw [h6, ht3],
+    fun k => rget_decode_encode s hn k⟩
 
 /-! ### constructor-shaped tables -/
 
@@ -254,11 +297,12 @@ theorem re_roundtrip_exact (m : Mode) (n : Int) :
 /-! ### the whole configuration -/
 
 /-- invariants every configuration built through the public API satisfies (Go types: int64
-    durations; Go maps: unique keys; WithInitTimeout: only positive overrides) -/
+    durations; Go maps: unique keys; WithExponentialBackoff: normalised triple; WithInitTimeout: only
+    positive overrides) -/
 structure Inv (d : Defaults) (c : SpawnCfg) : Prop where
-  dSup : nodupKeys d.sup.rules ∧ inI64 d.sup.timeout = true
+  dSup : nodupKeys d.sup.rules ∧ inI64 d.sup.timeout = true ∧ tripleOK d.sup
   dPas : ∀ ns, d.pas = .timeBased ns → inI64 ns = true
-  sup : ∀ s, c.sup = some s → nodupKeys s.rules ∧ inI64 s.timeout = true
+  sup : ∀ s, c.sup = some s → nodupKeys s.rules ∧ inI64 s.timeout = true ∧ tripleOK s
   pas : ∀ ns, c.pas = some (.timeBased ns) → inI64 ns = true
   re : ∀ r, c.re = some r → 0 ≤ r.maxInFlight
   init : ∀ t, c.initTimeout = some t → 0 < t ∧ inI64 t = true
@@ -278,23 +322,24 @@ theorem pas_roundtrip (p : Passivation) (h : ∀ ns, p = .timeBased ns → inI64
   | messageCount n => rfl
   | longLived => rfl
 
-/-- **what the re-created actor holds, exactly**, for every configuration -/
+/-- **what the re-created actor holds, exactly**, for every configuration: everything, with the
+    directive table re-normalised and the reentrancy limit clamped -/
 theorem relocate_exact (d : Defaults) (c : SpawnCfg) (hi : Inv d c) :
     let p := configPID d c
     let q := relocate d c
     q.sup.strategy = p.sup.strategy ∧ q.sup.maxRetries = p.sup.maxRetries ∧ q.sup.timeout = p.sup.timeout ∧
-    q.sup.initialDelay = 0 ∧ q.sup.maxDelay = 0 ∧ q.sup.resetAfter = 0 ∧
+    q.sup.initialDelay = p.sup.initialDelay ∧ q.sup.maxDelay = p.sup.maxDelay ∧ q.sup.resetAfter = p.sup.resetAfter ∧
     (∀ k, rget q.sup.rules k = normGet p.sup.rules k) ∧
     q.pas = p.pas ∧ q.re = p.re.map clampRe ∧ q.stash = p.stash ∧ q.role = p.role ∧ q.deps = p.deps ∧
     q.initTimeout = p.initTimeout := by
   intro p q
-  have hsup : nodupKeys p.sup.rules ∧ inI64 p.sup.timeout = true := by
-    show nodupKeys (c.sup.getD d.sup).rules ∧ inI64 (c.sup.getD d.sup).timeout = true
+  have hsup : nodupKeys p.sup.rules ∧ inI64 p.sup.timeout = true ∧ tripleOK p.sup := by
+    show nodupKeys (c.sup.getD d.sup).rules ∧ inI64 (c.sup.getD d.sup).timeout = true ∧ tripleOK (c.sup.getD d.sup)
     cases hs : c.sup with
     | none => exact hi.dSup
     | some s => exact hi.sup s hs
   have hq : q.sup = decodeSup (encodeSup p.sup) := rfl
-  have hex := sup_roundtrip_exact p.sup hsup.1 hsup.2
+  have hex := sup_roundtrip_exact p.sup hsup.1 hsup.2.1 hsup.2.2
   obtain ⟨e1, e2, e3, e4, e5, e6, e7⟩ := hex
   refine ⟨by rw [hq]; exact e1, by rw [hq]; exact e2, by rw [hq]; exact e3, by rw [hq]; exact e4, by rw [hq]; exact e5,
     by rw [hq]; exact e6, fun k => by rw [hq]; exact e7 k, ?_, ?_, rfl, ?_, rfl, ?_⟩
@@ -345,7 +390,8 @@ theorem remoteSpawn_exact (d : Defaults) (c : SpawnCfg) (hi : Inv d c) :
     let q := remoteSpawn d c
     (match c.sup with
      | some s => q.sup.strategy = s.strategy ∧ q.sup.maxRetries = s.maxRetries ∧ q.sup.timeout = s.timeout ∧
-        q.sup.initialDelay = 0 ∧ q.sup.maxDelay = 0 ∧ q.sup.resetAfter = 0 ∧ ∀ k, rget q.sup.rules k = normGet s.rules k
+        q.sup.initialDelay = s.initialDelay ∧ q.sup.maxDelay = s.maxDelay ∧ q.sup.resetAfter = s.resetAfter ∧
+        ∀ k, rget q.sup.rules k = normGet s.rules k
      | none => q.sup = p.sup) ∧
     q.pas = p.pas ∧ q.re = p.re.map clampRe ∧ q.stash = p.stash ∧ q.role = p.role ∧ q.deps = p.deps ∧
     q.initTimeout = p.initTimeout := by
@@ -359,9 +405,9 @@ theorem remoteSpawn_exact (d : Defaults) (c : SpawnCfg) (hi : Inv d c) :
       have hq : q.sup = decodeSup (encodeSup s) := by
         show ((c.sup.map encodeSup).map decodeSup).getD d.sup = _
         rw [hs]; rfl
-      obtain ⟨h1, h2⟩ := hi.sup s hs
+      obtain ⟨h1, h2, h3⟩ := hi.sup s hs
       simp only [hq]
-      exact sup_roundtrip_exact s h1 h2
+      exact sup_roundtrip_exact s h1 h2 h3
   · show ((c.pas.map encodePas).map decodePas).getD d.pas = c.pas.getD d.pas
     cases hp : c.pas with
     | none => rfl
@@ -395,16 +441,14 @@ def C37_full : Prop :=
 
 /-- the decidable guard of the partial theorem, on the configuration the local actor holds -/
 def guard (p : PidCfg) : Bool :=
-  decide (p.sup.initialDelay = 0) && decide (p.sup.maxDelay = 0) && decide (p.sup.resetAfter = 0) && ctorShaped p.sup.rules &&
-  (match p.re with | some r => decide (r.maxInFlight ≤ maxU32) | none => true)
+  ctorShaped p.sup.rules && (match p.re with | some r => decide (r.maxInFlight ≤ maxU32) | none => true)
 
 theorem relocate_partial (d : Defaults) (c : SpawnCfg) (hi : Inv d c) (hg : guard (configPID d c) = true) :
     obsEq (relocate d c) (configPID d c) := by
   obtain ⟨e1, e2, e3, e4, e5, e6, e7, e8, e9, e10, e11, e12, e13⟩ := relocate_exact d c hi
-  simp only [guard, Bool.and_eq_true, decide_eq_true_eq] at hg
-  obtain ⟨⟨⟨⟨g1, g2⟩, g3⟩, g4⟩, g5⟩ := hg
-  refine ⟨e1, e2, e3, by rw [e4, g1], by rw [e5, g2], by rw [e6, g3], fun k => by rw [e7 k, normGet_of_ctorShaped _ g4 k],
-    e8, ?_, e10, e11, e12, e13⟩
+  simp only [guard, Bool.and_eq_true] at hg
+  obtain ⟨g4, g5⟩ := hg
+  refine ⟨e1, e2, e3, e4, e5, e6, fun k => by rw [e7 k, normGet_of_ctorShaped _ g4 k], e8, ?_, e10, e11, e12, e13⟩
   rw [e9]
   cases hr : (configPID d c).re with
   | none => rfl
@@ -418,8 +462,8 @@ theorem relocate_partial (d : Defaults) (c : SpawnCfg) (hi : Inv d c) (hg : guar
 theorem remoteSpawn_partial (d : Defaults) (c : SpawnCfg) (hi : Inv d c) (hg : guard (configPID d c) = true) :
     obsEq (remoteSpawn d c) (configPID d c) := by
   obtain ⟨es, e8, e9, e10, e11, e12, e13⟩ := remoteSpawn_exact d c hi
-  simp only [guard, Bool.and_eq_true, decide_eq_true_eq] at hg
-  obtain ⟨⟨⟨⟨g1, g2⟩, g3⟩, g4⟩, g5⟩ := hg
+  simp only [guard, Bool.and_eq_true] at hg
+  obtain ⟨g4, g5⟩ := hg
   have hre : (remoteSpawn d c).re = (configPID d c).re := by
     rw [e9]
     cases hr : (configPID d c).re with
@@ -441,88 +485,110 @@ theorem remoteSpawn_partial (d : Defaults) (c : SpawnCfg) (hi : Inv d c) (hg : g
     have hp : (configPID d c).sup = s := by
       show c.sup.getD d.sup = s
       rw [hs]; rfl
-    rw [hp] at g1 g2 g3 g4
+    rw [hp] at g4
     obtain ⟨e1, e2, e3, e4, e5, e6, e7⟩ := es
-    exact ⟨by rw [hp]; exact e1, by rw [hp]; exact e2, by rw [hp]; exact e3, by rw [hp, e4, g1], by rw [hp, e5, g2],
-      by rw [hp, e6, g3], fun k => by rw [hp, e7 k, normGet_of_ctorShaped _ g4 k], e8, hre, e10, e11, e12, e13⟩
+    exact ⟨by rw [hp]; exact e1, by rw [hp]; exact e2, by rw [hp]; exact e3, by rw [hp]; exact e4, by rw [hp]; exact e5,
+      by rw [hp]; exact e6, fun k => by rw [hp, e7 k, normGet_of_ctorShaped _ g4 k], e8, hre, e10, e11, e12, e13⟩
 
 /-- the property under the decidable guard, on both routes -/
 theorem C37_partial (d : Defaults) (c : SpawnCfg) (hi : Inv d c) (hg : guard (configPID d c) = true) :
     obsEq (relocate d c) (configPID d c) ∧ obsEq (remoteSpawn d c) (configPID d c) :=
   ⟨relocate_partial d c hi hg, remoteSpawn_partial d c hi hg⟩
 
-/-- every configuration whose supervisor has a backoff loses it -/
-theorem C37_backoff_always_lost (d : Defaults) (c : SpawnCfg) (hi : Inv d c) (hb : (configPID d c).sup.initialDelay ≠ 0) :
-    ¬ obsEq (relocate d c) (configPID d c) := by
-  intro h
-  have := (relocate_exact d c hi).2.2.2.1
-  exact hb (h.2.2.2.1 ▸ this)
-
 def dflt : Defaults := ⟨newSupervisor [], .timeBased 120000000000⟩
-
-/-- witness: `WithSupervisor(NewSupervisor(WithExponentialBackoff(1000ns, 2000ns, 3000ns)))` -/
-def witness : SpawnCfg := ⟨some (newSupervisor [.backoff 1000 2000 3000]), none, none, false, none, [], none⟩
 
 theorem nodup_newSup (opts : List SupOpt) (ho : ∀ o ∈ opts, optOK o) : nodupKeys (newSupervisor opts).rules :=
   (newSupervisor_ctorShaped opts ho).2
 
+theorem tripleOK_zero (s : Sup) (h1 : s.initialDelay = 0) (h2 : s.maxDelay = 0) (h3 : s.resetAfter = 0) : tripleOK s := by
+  refine ⟨Or.inl ⟨h1, h2, h3⟩, ?_, ?_, ?_⟩ <;> simp [h1, h2, h3, inI64, minI64, maxI64]
+
+/-- witness: a supervisor whose table was emptied with the public `Reset()` — the decoder's
+    NewSupervisor puts the two default directives back (finding C37-F2) -/
+def resetSup : Sup := applyPost (newSupervisor []) .reset
+def witness : SpawnCfg := ⟨some resetSup, none, none, false, none, [], none⟩
+
 theorem witness_inv : Inv dflt witness := by
-  refine ⟨⟨nodup_newSup [] (by simp), by decide⟩, ?_, ?_, ?_, ?_, ?_⟩
+  refine ⟨⟨nodup_newSup [] (by simp), by decide, tripleOK_zero _ rfl rfl rfl⟩, ?_, ?_, ?_, ?_, ?_⟩
   · intro ns h; simp [dflt] at h; subst h; decide
   · intro s h
     simp only [witness, Option.some.injEq] at h
     subst h
-    exact ⟨nodup_newSup _ (by simp [optOK]), by decide⟩
+    exact ⟨by simp [resetSup, applyPost, nodupKeys, rkeys], by decide, tripleOK_zero _ rfl rfl rfl⟩
   · intro ns h; simp [witness] at h
   · intro r h; simp [witness] at h
   · intro t h; simp [witness] at h
 
 theorem C37_refuted : ¬ C37_full := by
   intro h
-  refine C37_backoff_always_lost dflt witness witness_inv ?_ (h dflt witness witness_inv).1
+  have hobs := (h dflt witness witness_inv).1
+  have hk := hobs.2.2.2.2.2.2.1 panicKey
+  have hex := (relocate_exact dflt witness witness_inv).2.2.2.2.2.2.1 panicKey
+  rw [hex] at hk
+  revert hk
   decide
 
-/-- the guard's supervisor part holds for every supervisor `NewSupervisor` can build from options
-    other than WithExponentialBackoff -/
-theorem C37_constructor_covered (opts : List SupOpt) (ho : ∀ o ∈ opts, optOK o)
-    (hb : ∀ o ∈ opts, ∀ i m r, o ≠ .backoff i m r) :
-    (newSupervisor opts).initialDelay = 0 ∧ (newSupervisor opts).maxDelay = 0 ∧ (newSupervisor opts).resetAfter = 0 ∧
-    ctorShaped (newSupervisor opts).rules = true := by
-  have key : ∀ (s : Sup) (os : List SupOpt), (∀ o ∈ os, ∀ i m r, o ≠ .backoff i m r) →
-      (os.foldl applyOpt s).initialDelay = s.initialDelay ∧ (os.foldl applyOpt s).maxDelay = s.maxDelay ∧
-      (os.foldl applyOpt s).resetAfter = s.resetAfter := by
+/-- the backoff triple now survives, for every configuration (what fix 1ad4e99 established;
+    before it `SupervisorSpec` had no field for it and the triple came back as 0/0/0) -/
+theorem C37_backoff_survives (d : Defaults) (c : SpawnCfg) (hi : Inv d c) :
+    (relocate d c).sup.initialDelay = (configPID d c).sup.initialDelay ∧
+    (relocate d c).sup.maxDelay = (configPID d c).sup.maxDelay ∧
+    (relocate d c).sup.resetAfter = (configPID d c).sup.resetAfter := by
+  obtain ⟨_, _, _, e4, e5, e6, _⟩ := relocate_exact d c hi
+  exact ⟨e4, e5, e6⟩
+
+theorem tripleOK_shape_applyOpt (s : Sup) (o : SupOpt)
+    (h : (s.initialDelay = 0 ∧ s.maxDelay = 0 ∧ s.resetAfter = 0) ∨ (0 < s.initialDelay ∧ s.initialDelay ≤ s.maxDelay ∧ 0 < s.resetAfter)) :
+    ((applyOpt s o).initialDelay = 0 ∧ (applyOpt s o).maxDelay = 0 ∧ (applyOpt s o).resetAfter = 0) ∨
+    (0 < (applyOpt s o).initialDelay ∧ (applyOpt s o).initialDelay ≤ (applyOpt s o).maxDelay ∧ 0 < (applyOpt s o).resetAfter) := by
+  cases o with
+  | strategy st => exact h
+  | retry n t => exact h
+  | directive k d => exact h
+  | anyError d => exact h
+  | backoff i m r =>
+    simp only [applyOpt]
+    split
+    · exact h
+    · right
+      simp only
+      refine ⟨by omega, ?_, ?_⟩
+      · split <;> omega
+      · split <;> (try split) <;> omega
+
+/-- every supervisor `NewSupervisor` can build, from ANY options, has a constructor-shaped table and a
+    normalised backoff triple: the guard's supervisor part and the shape clause of `Inv` -/
+theorem C37_constructor_covered (opts : List SupOpt) (ho : ∀ o ∈ opts, optOK o) :
+    ctorShaped (newSupervisor opts).rules = true ∧
+    (((newSupervisor opts).initialDelay = 0 ∧ (newSupervisor opts).maxDelay = 0 ∧ (newSupervisor opts).resetAfter = 0) ∨
+     (0 < (newSupervisor opts).initialDelay ∧ (newSupervisor opts).initialDelay ≤ (newSupervisor opts).maxDelay ∧
+      0 < (newSupervisor opts).resetAfter)) := by
+  refine ⟨(newSupervisor_ctorShaped opts ho).1, ?_⟩
+  have key : ∀ (s : Sup) (os : List SupOpt),
+      ((s.initialDelay = 0 ∧ s.maxDelay = 0 ∧ s.resetAfter = 0) ∨ (0 < s.initialDelay ∧ s.initialDelay ≤ s.maxDelay ∧ 0 < s.resetAfter)) →
+      (((os.foldl applyOpt s).initialDelay = 0 ∧ (os.foldl applyOpt s).maxDelay = 0 ∧ (os.foldl applyOpt s).resetAfter = 0) ∨
+       (0 < (os.foldl applyOpt s).initialDelay ∧ (os.foldl applyOpt s).initialDelay ≤ (os.foldl applyOpt s).maxDelay ∧
+        0 < (os.foldl applyOpt s).resetAfter)) := by
     intro s os
     induction os generalizing s with
-    | nil => intro _; simp
-    | cons o os ih =>
-      intro hos
-      have := ih (applyOpt s o) (fun o' ho' => hos o' (by simp [ho']))
-      simp only [List.foldl_cons]
-      have h1 : (applyOpt s o).initialDelay = s.initialDelay ∧ (applyOpt s o).maxDelay = s.maxDelay ∧
-          (applyOpt s o).resetAfter = s.resetAfter := by
-        cases o with
-        | backoff i m r => exact absurd rfl (hos _ (by simp) i m r)
-        | strategy st => simp [applyOpt]
-        | retry n t => simp [applyOpt]
-        | directive k d => simp [applyOpt]
-        | anyError d => simp [applyOpt]
-      exact ⟨this.1.trans h1.1, this.2.1.trans h1.2.1, this.2.2.trans h1.2.2⟩
-  have hk := key base opts hb
+    | nil => intro h; exact h
+    | cons o os ih => intro h; exact ih _ (tripleOK_shape_applyOpt s o h)
+  have hk := key base opts (Or.inl ⟨rfl, rfl, rfl⟩)
   have hc : ∀ s : Sup, (collapse s).initialDelay = s.initialDelay ∧ (collapse s).maxDelay = s.maxDelay ∧
       (collapse s).resetAfter = s.resetAfter := by
     intro s; unfold collapse; split <;> simp
   have := hc (opts.foldl applyOpt base)
-  refine ⟨?_, ?_, ?_, (newSupervisor_ctorShaped opts ho).1⟩
-  · show (collapse _).initialDelay = 0; rw [this.1, hk.1]; rfl
-  · show (collapse _).maxDelay = 0; rw [this.2.1, hk.2.1]; rfl
-  · show (collapse _).resetAfter = 0; rw [this.2.2, hk.2.2]; rfl
+  show ((collapse _).initialDelay = 0 ∧ (collapse _).maxDelay = 0 ∧ (collapse _).resetAfter = 0) ∨
+    (0 < (collapse _).initialDelay ∧ (collapse _).initialDelay ≤ (collapse _).maxDelay ∧ 0 < (collapse _).resetAfter)
+  rw [this.1, this.2.1, this.2.2]
+  exact hk
 
 /-! ### non-vacuity -/
 
-/-- a non-trivial configuration satisfying the guard: custom directives, retry budget, time-based
+/-- a non-trivial configuration satisfying the guard: custom directives, retry budget, backoff, time-based
     passivation, reentrancy, stash, role, a dependency, an init timeout -/
 def sample : SpawnCfg :=
-  ⟨some (newSupervisor [.strategy .oneForAll, .retry 3 5000000000, .directive "actor.VerifC37ErrA" .resume]),
+  ⟨some (newSupervisor [.strategy .oneForAll, .retry 3 5000000000, .backoff 1000 2000 3000, .directive "actor.VerifC37ErrA" .resume]),
    some (.timeBased 3600000000001), some (Reentrancy.new .stashNonReentrant 7), true, some "web", [⟨"d1", "hello"⟩], some 5000000000⟩
 
 example : guard (configPID dflt sample) = true := by decide
